@@ -34,7 +34,19 @@ def helper_refs(pkgname: str) -> dict:
     }
 
 
-def build_case(terms: list, pkgname: str, options: dict | None = None) -> dict:
+def names(i: int, n: int, share: bool) -> dict:
+    """Names of the declarations carrying term i. share=True reuses names across positions: every function parameter
+    is called 'x', and instance attribute i is called like the constructor parameter of the *next* term of its class
+    (a same-named parameter with a different annotation), as in 'def __init__(self, data: list[int]): self.data: dict = ...'."""
+    if not share:
+        return {"fparam": f"x_{i}", "cparam": f"cp_{i}", "iattr": f"ia_{i}"}
+    k = (i // PER_CLASS) * PER_CLASS
+    size = min(PER_CLASS, n - k)
+    nxt = k + (i - k + 1) % size
+    return {"fparam": "x", "cparam": f"v_{i}", "iattr": f"v_{nxt}" if size > 1 else f"ia_{i}"}
+
+
+def build_case(terms: list, pkgname: str, options: dict | None = None, share: bool = False) -> dict:
     h = helper_refs(pkgname)
     decls: list[dict] = [
         gt.klass("Ca"),
@@ -47,7 +59,7 @@ def build_case(terms: list, pkgname: str, options: dict | None = None) -> dict:
         has_tv = "tvar" in ref.kinds_in(t)
         is_final = t[0] == "final"
         if not is_final:
-            decls.append(gt.func(f"fp_{i}", [gt.param(f"x_{i}", "pos", t)], ret=["none"]))
+            decls.append(gt.func(f"fp_{i}", [gt.param(names(i, len(terms), share)["fparam"], "pos", t)], ret=["none"]))
             rp = [gt.param(f"tv_{i}", "pos", ["tvar", "T"])] if has_tv else []
             decls.append(gt.func(f"fr_{i}", rp, ret=t))
     for k in range(0, len(terms), PER_CLASS):
@@ -58,8 +70,9 @@ def build_case(terms: list, pkgname: str, options: dict | None = None) -> dict:
         for i, t in chunk:
             inner = t[1] if t[0] == "final" else t
             members.append(gt.attr(f"ca_{i}", t, "None" if t[0] == "final" else None))
-            cparams.append(gt.param(f"cp_{i}", "pos", inner))
-            init_attrs.append({"name": f"ia_{i}", "ann": t, "value": f"cp_{i}"})
+            nm = names(i, len(terms), share)
+            cparams.append(gt.param(nm["cparam"], "pos", inner))
+            init_attrs.append({"name": nm["iattr"], "ann": t, "value": nm["cparam"]})
         ctor = gt.func("__init__", cparams, kind="method", init_attrs=init_attrs)
         tps = [{"name": "T", "variance": "", "bound": None, "values": []}] if any("tvar" in ref.kinds_in(t) for _, t in chunk) else []
         decls.append(gt.klass(f"H_{k}", members, ctor=ctor, tparams=tps))
@@ -68,8 +81,8 @@ def build_case(terms: list, pkgname: str, options: dict | None = None) -> dict:
     return pkg
 
 
-def mk_case(terms: list, pkgname: str, options: dict | None = None) -> dict:
-    return {"terms": terms, "pkgname": pkgname, "options": options or {}}
+def mk_case(terms: list, pkgname: str, options: dict | None = None, share: bool = False) -> dict:
+    return {"terms": terms, "pkgname": pkgname, "options": options or {}, "share": share}
 
 
 # ---- enumeration -------------------------------------------------------------------------------------
@@ -189,7 +202,8 @@ def expected_results(t: list) -> list:
 
 def judge(case: dict) -> dict:
     terms = case["terms"]
-    pkg = build_case(terms, case["pkgname"])
+    share = bool(case.get("share"))
+    pkg = build_case(terms, case["pkgname"], share=share)
     files = gt.render_package(pkg)
     gt.check_compiles(files)
     r = run_case(files, case.get("options"))
@@ -234,6 +248,7 @@ def judge(case: dict) -> dict:
         res["stats"].append(f"depth{min(ref.depth(t), 4)}")
         res["stats"].append(f"top:{t[0]}")
         k = (i // PER_CLASS) * PER_CLASS
+        nm = names(i, len(terms), share)
         inner = t[1] if t[0] == "final" else t
         if t[0] != "final":
             hit = ss.one(f"fp_{i}", kind="fun")
@@ -244,9 +259,9 @@ def judge(case: dict) -> dict:
         cls = ss.one(f"H_{k}", kind="class")
         cp = None
         if cls and cls[1].params is not None:
-            cp = next((p for p in cls[1].params if p.python_name == f"cp_{i}"), None)
+            cp = next((p for p in cls[1].params if p.python_name == nm["cparam"]), None)
         cmp("ctor_param", i, inner, ref.canon_stub_type(cp.type) if cp else None, cp is not None, ref.tr(inner), cp.type if cp else None)
-        for pos, nm in (("class_attr", f"ca_{i}"), ("inst_attr", f"ia_{i}")):
+        for pos, nm in (("class_attr", f"ca_{i}"), ("inst_attr", nm["iattr"])):
             hit = ss.one(f"H_{k}", nm, kind="attr")
             if ref.tr(inner)[0] == "named" and ref.tr(inner)[1] == "T":
                 res["stats"].append("skipped:typevar_class_attribute(§4.4)")
@@ -266,7 +281,7 @@ def _case(draw: Any, args: dict) -> dict:
     depth = 4 if args.get("tier") == "thorough" else 3
     terms = draw(st.lists(gen.type_terms(env, depth), min_size=15, max_size=30))
     terms = [t if draw(st.integers(0, 7)) else ["final", t] for t in terms]
-    return mk_case(terms, pkgname, {"nc": False})
+    return mk_case(terms, pkgname, {"nc": False}, share=draw(st.booleans()))
 
 
 def strategy(args: dict) -> st.SearchStrategy:
@@ -288,7 +303,7 @@ def run(ctx: Ctx) -> None:
     h = helper_refs(gen.pkg_name(7))
     terms = enumerated_terms(ctx, h)
     per_pkg = 150
-    cases = [mk_case(terms[i : i + per_pkg], gen.pkg_name(7), {"nc": False}) for i in range(0, len(terms), per_pkg)]
+    cases = [mk_case(terms[i : i + per_pkg], gen.pkg_name(7), {"nc": False}, share=(i // per_pkg) % 2 == 1) for i in range(0, len(terms), per_pkg)]
     failures = engine.run_cases(ctx, MOD, cases)
     failures += engine.search(ctx, MOD, shards=ctx.n(16, 96), examples=ctx.n(3, 12))
     engine.report_failures(ctx, MOD, failures, valid=valid)
@@ -319,6 +334,8 @@ def candidates(case: dict) -> list[dict]:
     terms = case["terms"]
     out = []
     n = len(terms)
+    if case.get("share"):
+        out.append({**case, "share": False})
     if n > 1:
         out.append({**case, "terms": terms[: n // 2]})
         out.append({**case, "terms": terms[n // 2 :]})
